@@ -62,7 +62,7 @@ theorem geoRun_invariants (n : Nat) (c : GeoCfg) (iterations : Nat) (draws : Lis
   induction draws generalizing st with
   | nil => simp only [geoRun, Option.some.injEq] at h; subst h; exact ⟨inv, fun _ => rfl, rfl, id⟩
   | cons d ds ih =>
-    simp only [geoRun] at h
+    simp only [geoRun, geoWhile_iff] at h
     split at h
     · rename_i hlt
       cases hs : geoStep c st d with
@@ -99,7 +99,7 @@ theorem geoRun_defined (c : GeoCfg) (iterations : Nat) (draws : List (Nat × Nat
   induction draws generalizing st with
   | nil => exact ⟨st, rfl⟩
   | cons d ds ih =>
-    simp only [geoRun]
+    simp only [geoRun, geoWhile_iff]
     split
     · obtain ⟨h1, h2⟩ := hd d (by simp)
       have hs : ∃ st1, geoStep c st d = some st1 ∧ st1.edges.length = st.edges.length := by
